@@ -214,7 +214,8 @@ theorem updatePermissions_other_perm {s s' : State} {m : Nat} {u : PermUpdate}
 /-- The rest of the state is untouched, and a failed update changes nothing (`applyOp`). -/
 theorem updatePermissions_rest {s s' : State} {m : Nat} {u : PermUpdate}
     (h : updatePermissions s m u = .ok s') :
-    s'.authority = s.authority ∧ s'.orders = s.orders ∧ s'.payments = s.payments := by
+    s'.authority = s.authority ∧ s'.orders = s.orders ∧ s'.payments = s.payments ∧
+      s'.commits = s.commits := by
   unfold updatePermissions at h
   split at h <;> cases h <;> simp
 
@@ -271,6 +272,24 @@ theorem changeTarget_keeps {s s' : State} {a b c : String} (h : changeTarget s a
   · cases h
   · split at h <;> cases h; exact ⟨rfl, rfl⟩
 
+theorem setOrderExternalID_keeps {s s' : State} {m id : Nat} {ext : String}
+    (h : setOrderExternalID s m id ext = .ok s') :
+    s'.grants = s.grants ∧ s'.authority = s.authority := by
+  unfold setOrderExternalID at h
+  split at h
+  · cases h
+  · split at h
+    · cases h
+    · split at h
+      · cases h
+      · split at h <;> cases h; exact ⟨rfl, rfl⟩
+
+theorem releaseCommitments_keeps {s s' : State} {m : Nat} {as : List String}
+    (h : releaseCommitments s m as = .ok s') :
+    s'.grants = s.grants ∧ s'.authority = s.authority := by
+  unfold releaseCommitments at h
+  split at h <;> cases h; exact ⟨rfl, rfl⟩
+
 theorem opResult_keeps {r : Except String State} {s : State}
     (h : ∀ s', r = .ok s' → s'.grants = s.grants ∧ s'.authority = s.authority) :
     (opResult r s).1.grants = s.grants ∧ (opResult r s).1.authority = s.authority := by
@@ -304,6 +323,16 @@ theorem grants_change_only_by_permitted_update (s : State) (op : Op) :
   | cancelpay a b => left; exact (opResult_keeps fun s' h => cancelPayment_keeps h).1
   | retarget a b c => left; exact (opResult_keeps fun s' h => changeTarget_keeps h).1
   | gov n c p => left; rfl
+  | setid m id c x =>
+    left; simp only [applyOp]; split
+    · rfl
+    · exact (opResult_keeps fun s' h => setOrderExternalID_keeps h).1
+  | commit m a => left; rfl
+  | settle m a b c => left; rfl
+  | release m c as =>
+    left; simp only [applyOp]; split
+    · rfl
+    · exact (opResult_keeps fun s' h => releaseCommitments_keeps h).1
 
 theorem applyOp_authority (s : State) (op : Op) : (applyOp s op).1.authority = s.authority := by
   cases op with
@@ -324,6 +353,16 @@ theorem applyOp_authority (s : State) (op : Op) : (applyOp s op).1.authority = s
   | cancelpay a b => exact (opResult_keeps fun s' h => cancelPayment_keeps h).2
   | retarget a b c => exact (opResult_keeps fun s' h => changeTarget_keeps h).2
   | gov n c p => rfl
+  | setid m id c x =>
+    simp only [applyOp]; split
+    · rfl
+    · exact (opResult_keeps fun s' h => setOrderExternalID_keeps h).2
+  | commit m a => rfl
+  | settle m a b c => rfl
+  | release m c as =>
+    simp only [applyOp]; split
+    · rfl
+    · exact (opResult_keeps fun s' h => releaseCommitments_keeps h).2
 
 /-- The authority never changes, over any history. -/
 theorem authority_constant (s : State) (ops : List Op) : (run s ops).authority = s.authority := by
@@ -573,7 +612,8 @@ theorem mem_removePayment (s : State) (p q : Payment) :
 
 theorem removePayment_rest (s : State) (p : Payment) :
     (removePayment s p).orders = s.orders ∧ (removePayment s p).grants = s.grants ∧
-      (removePayment s p).authority = s.authority := ⟨rfl, rfl, rfl⟩
+      (removePayment s p).authority = s.authority ∧ (removePayment s p).commits = s.commits :=
+  ⟨rfl, rfl, rfl, rfl⟩
 
 /-- **Cancel, both directions and exact effect**: a cancel succeeds iff the order exists and the
 signer's text is the stored owner text or passes the `cancel` guard of the order's market; then
@@ -617,15 +657,16 @@ theorem cancel_entitled_succeeds (s : State) (id : Nat) (signer : Text) (o : Ord
     cancelOrder s id signer = .ok { s with orders := s.orders.filter (·.id ≠ id) } :=
   (cancelOrder_ok_iff s _ id signer).mpr ⟨o, ho, he, rfl⟩
 
-example : cancelOrder { orders := [⟨7, 1, ⟨"A", .lower⟩⟩, ⟨8, 1, ⟨"B", .lower⟩⟩], grants := [(1, "C", .cancel)] } 7 ⟨"C", .upper⟩
-    = .ok { orders := [⟨8, 1, ⟨"B", .lower⟩⟩], grants := [(1, "C", .cancel)] } := by rfl
+example : cancelOrder { orders := [⟨7, 1, ⟨"A", .lower⟩, ""⟩, ⟨8, 1, ⟨"B", .lower⟩, ""⟩], grants := [(1, "C", .cancel)] } 7 ⟨"C", .upper⟩
+    = .ok { orders := [⟨8, 1, ⟨"B", .lower⟩, ""⟩], grants := [(1, "C", .cancel)] } := by rfl
 
 /-- Frame of a cancel: every other order stays, grants / payments / authority are untouched. -/
 theorem cancelOrder_frame {s s' : State} {id : Nat} {signer : Text} (h : cancelOrder s id signer = .ok s') :
     (∀ o, o ∈ s'.orders ↔ o ∈ s.orders ∧ o.id ≠ id) ∧
-      s'.payments = s.payments ∧ s'.grants = s.grants ∧ s'.authority = s.authority := by
+      s'.payments = s.payments ∧ s'.grants = s.grants ∧ s'.authority = s.authority ∧
+      s'.commits = s.commits := by
   obtain ⟨o, _, _, rfl⟩ := (cancelOrder_ok_iff s s' id signer).mp h
-  refine ⟨fun o => ?_, rfl, rfl, rfl⟩
+  refine ⟨fun o => ?_, rfl, rfl, rfl, rfl⟩
   simp [List.mem_filter]
 
 /-- The owner comparison of `CancelOrder` is on the TEXTS (`signer != orderOwner`): an order
@@ -634,9 +675,9 @@ signing under its usual lower-case text (and vice versa), unless it holds `cance
 account-level converse "the owner can always cancel his order" is FALSE in the model — and in
 the implementation (corpus/C11/perm.spelling.ops replays this on the real keeper). -/
 theorem cancel_owner_other_spelling_rejected :
-    cancelOrder { orders := [⟨7, 1, ⟨"A", .upper⟩⟩] } 7 ⟨"A", .lower⟩ = .error "perm" ∧
-    cancelOrder { orders := [⟨7, 1, ⟨"A", .lower⟩⟩] } 7 ⟨"A", .upper⟩ = .error "perm" ∧
-    (∃ s', cancelOrder { orders := [⟨7, 1, ⟨"A", .upper⟩⟩] } 7 ⟨"A", .upper⟩ = .ok s') := by
+    cancelOrder { orders := [⟨7, 1, ⟨"A", .upper⟩, ""⟩] } 7 ⟨"A", .lower⟩ = .error "perm" ∧
+    cancelOrder { orders := [⟨7, 1, ⟨"A", .lower⟩, ""⟩] } 7 ⟨"A", .upper⟩ = .error "perm" ∧
+    (∃ s', cancelOrder { orders := [⟨7, 1, ⟨"A", .upper⟩, ""⟩] } 7 ⟨"A", .upper⟩ = .ok s') := by
   refine ⟨by rfl, by rfl, _, rfl⟩
 
 /-- **Accept**: succeeds only for the current target, removes exactly the payment `(source, ext)`
@@ -645,7 +686,8 @@ and touches nothing else. -/
 theorem acceptPayment_effect {s s' : State} {source ext signer : String}
     (h : acceptPayment s source ext signer = .ok s') :
     (∀ q, q ∈ s'.payments ↔ q ∈ s.payments ∧ ¬ (q.source = source ∧ q.extId = ext)) ∧
-      s'.orders = s.orders ∧ s'.grants = s.grants ∧ s'.authority = s.authority := by
+      s'.orders = s.orders ∧ s'.grants = s.grants ∧ s'.authority = s.authority ∧
+      s'.commits = s.commits := by
   unfold acceptPayment at h
   split at h
   · cases h
@@ -662,7 +704,8 @@ theorem acceptPayment_effect {s s' : State} {source ext signer : String}
 theorem rejectPayment_effect {s s' : State} {source ext signer : String}
     (h : rejectPayment s source ext signer = .ok s') :
     (∀ q, q ∈ s'.payments ↔ q ∈ s.payments ∧ ¬ (q.source = source ∧ q.extId = ext)) ∧
-      s'.orders = s.orders ∧ s'.grants = s.grants ∧ s'.authority = s.authority := by
+      s'.orders = s.orders ∧ s'.grants = s.grants ∧ s'.authority = s.authority ∧
+      s'.commits = s.commits := by
   unfold rejectPayment at h
   split at h
   · cases h
@@ -680,7 +723,8 @@ external ids and every other source's payments stay (strengthens `cancelPayment_
 theorem cancelPayment_effect {s s' : State} {signer ext : String}
     (h : cancelPayment s signer ext = .ok s') :
     (∀ q, q ∈ s'.payments ↔ q ∈ s.payments ∧ ¬ (q.source = signer ∧ q.extId = ext)) ∧
-      s'.orders = s.orders ∧ s'.grants = s.grants ∧ s'.authority = s.authority := by
+      s'.orders = s.orders ∧ s'.grants = s.grants ∧ s'.authority = s.authority ∧
+      s'.commits = s.commits := by
   unfold cancelPayment at h
   split at h
   · cases h
@@ -697,14 +741,15 @@ theorem changeTarget_effect {s s' : State} {signer ext nt : String}
     (∀ q, ¬ (q.source = signer ∧ q.extId = ext) → (q ∈ s'.payments ↔ q ∈ s.payments)) ∧
     (∀ q, q.source = signer ∧ q.extId = ext →
       (q ∈ s'.payments ↔ q.target = nt ∧ ∃ q0 ∈ s.payments, q0.source = signer ∧ q0.extId = ext)) ∧
-      s'.orders = s.orders ∧ s'.grants = s.grants ∧ s'.authority = s.authority := by
+      s'.orders = s.orders ∧ s'.grants = s.grants ∧ s'.authority = s.authority ∧
+      s'.commits = s.commits := by
   unfold changeTarget at h
   split at h
   · cases h
   · split at h
     · cases h
     · cases h
-      refine ⟨fun q hq => ?_, fun q hq => ?_, rfl, rfl, rfl⟩
+      refine ⟨fun q hq => ?_, fun q hq => ?_, rfl, rfl, rfl, rfl⟩
       · simp only [List.mem_map]
         constructor
         · rintro ⟨x, hx, hxq⟩
@@ -814,6 +859,197 @@ theorem gov_checker_reports_non_authority (s : State) (n k : String) (c : Text) 
 theorem dump_checker_accepts_exact_effect (s : State) :
     dumpVerdict s (dump s) = "ok" := by
   simp [dumpVerdict]
+
+/-! ### Items that live in another market; owners of committed funds -/
+
+private theorem opResult_ok {r : Except String State} {s : State} (h : (opResult r s).2 = "ok") :
+    ∃ s', r = .ok s' ∧ (opResult r s).1 = s' := by
+  cases r with
+  | error e => exact absurd h (long_prefix_ne_ok "err:" e (by decide))
+  | ok s' => exact ⟨s', rfl, rfl⟩
+
+/-- **Set an order's external id, "in the market of the item acted on"**: the request succeeds
+only if the order exists, lives in the very market the request names, and the caller passes the
+`set_ids` guard of THAT market (the order's) — so `set_ids` in one market never reaches an order
+of another market, whichever market the request names. -/
+theorem setid_only_with_perm_in_order_market (s : State) (m id : Nat) (c : Text) (x : String)
+    (h : (applyOp s (.setid m id c x)).2 = "ok") :
+    ∃ o, s.orders.find? (·.id = id) = some o ∧ o.market = m ∧
+      endpointAllowed s .MarketSetOrderExternalID o.market c = true := by
+  simp only [applyOp] at h
+  split at h
+  · exact absurd (show ("err:perm" : String) = "ok" from h) (by decide)
+  · rename_i ha
+    obtain ⟨s', hs, _⟩ := opResult_ok h
+    unfold setOrderExternalID at hs
+    split at hs
+    · cases hs
+    · rename_i o ho
+      split at hs
+      · cases hs
+      · rename_i hm
+        have hm' : o.market = m := by simpa using hm
+        refine ⟨o, ho, hm', ?_⟩
+        rw [hm']
+        simpa using ha
+
+/-- Contrapositive, in the checker's terms: a caller that is not the authority and does not hold
+`set_ids` in the market the order lives in is never answered `ok`, whatever market it names. -/
+theorem setid_other_market_rejected (s : State) (m id : Nat) (c : Text) (x : String) (o : Order)
+    (ho : s.orders.find? (·.id = id) = some o)
+    (hn : endpointAllowed s .MarketSetOrderExternalID o.market c = false) :
+    (applyOp s (.setid m id c x)).2 ≠ "ok" := by
+  intro h
+  obtain ⟨o', ho', _, ha⟩ := setid_only_with_perm_in_order_market s m id c x h
+  rw [ho] at ho'
+  cases ho'
+  rw [hn] at ha
+  cases ha
+
+/-- Exact effect of an accepted request: the orders with that id get the new external id and keep
+everything else (market, owner); every other order, all grants, payments, commitments and the
+authority are untouched.  A rejected one changes nothing (`applyOp`). -/
+theorem setid_effect {s s' : State} {m id : Nat} {x : String}
+    (h : setOrderExternalID s m id x = .ok s') :
+    s'.orders = s.orders.map (fun q => if q.id = id then { q with ext := x } else q) ∧
+      (∀ q ∈ s.orders, q.id ≠ id → q ∈ s'.orders) ∧
+      s'.grants = s.grants ∧ s'.payments = s.payments ∧ s'.commits = s.commits ∧
+      s'.authority = s.authority := by
+  unfold setOrderExternalID at h
+  split at h
+  · cases h
+  · split at h
+    · cases h
+    · split at h
+      · cases h
+      · split at h
+        · cases h
+        · cases h
+          refine ⟨rfl, fun q hq hne => ?_, rfl, rfl, rfl, rfl⟩
+          exact List.mem_map.mpr ⟨q, hq, by simp [hne]⟩
+
+example : (applyOp { orders := [⟨7, 2, ⟨"A", .lower⟩, ""⟩], grants := [(1, "B", .set_ids)] }
+      (.setid 1 7 ⟨"B", .lower⟩ "e1")).2 = "err:invalid" ∧
+    (applyOp { orders := [⟨7, 2, ⟨"A", .lower⟩, ""⟩], grants := [(1, "B", .set_ids)] }
+      (.setid 2 7 ⟨"B", .lower⟩ "e1")).2 = "err:perm" ∧
+    (applyOp { orders := [⟨7, 2, ⟨"A", .lower⟩, ""⟩], grants := [(2, "B", .set_ids)] }
+      (.setid 2 7 ⟨"B", .upper⟩ "e1")).2 = "ok" := by decide
+
+theorem mem_releasePass {m : Nat} {as : List String} {cs cs' : List (Nat × String)}
+    (h : releasePass m as cs = some cs') (c : Nat × String) :
+    c ∈ cs' ↔ c ∈ cs ∧ ¬ (c.1 = m ∧ c.2 ∈ as) := by
+  induction as generalizing cs with
+  | nil => simp only [releasePass, Option.some.injEq] at h; subst h; simp
+  | cons a rest ih =>
+    simp only [releasePass] at h
+    split at h
+    · rw [ih h]
+      simp only [List.mem_filter, Bool.not_eq_eq_eq_not, Bool.not_true, Bool.and_eq_false_imp,
+        beq_iff_eq, List.mem_cons]
+      constructor
+      · rintro ⟨⟨hc, hna⟩, hr⟩
+        refine ⟨hc, ?_⟩
+        rintro ⟨h1, h2 | h2⟩
+        · exact absurd h2 (by simpa using hna h1)
+        · exact hr ⟨h1, h2⟩
+      · rintro ⟨hc, hn⟩
+        refine ⟨⟨hc, fun h1 => ?_⟩, fun ⟨h1, h2⟩ => hn ⟨h1, Or.inr h2⟩⟩
+        simpa using fun h2 => hn ⟨h1, Or.inl h2⟩
+    · cases h
+
+/-- **Release of committed funds**: the request succeeds only for the authority or a holder of
+`cancel` in that market — being the owner of the funds (or of all the funds named) gives nothing,
+whatever the market's state — and then exactly the named accounts' commitments to that market
+are gone: other accounts, other markets, orders, payments, grants untouched. -/
+theorem release_only_with_perm (s : State) (m : Nat) (c : Text) (as : List String)
+    (h : (applyOp s (.release m c as)).2 = "ok") :
+    endpointAllowed s .MarketReleaseCommitments m c = true ∧
+    (∀ k, k ∈ (applyOp s (.release m c as)).1.commits ↔ k ∈ s.commits ∧ ¬ (k.1 = m ∧ k.2 ∈ as)) ∧
+    (applyOp s (.release m c as)).1.orders = s.orders ∧
+    (applyOp s (.release m c as)).1.payments = s.payments ∧
+    (applyOp s (.release m c as)).1.grants = s.grants := by
+  simp only [applyOp] at h ⊢
+  split at h
+  · exact absurd (show ("err:perm" : String) = "ok" from h) (by decide)
+  · rename_i ha
+    simp only [ha]
+    obtain ⟨s', hs, hs'⟩ := opResult_ok h
+    refine ⟨by simpa using ha, ?_⟩
+    simp only [Bool.false_eq_true, if_false] at hs' ⊢
+    rw [hs']
+    unfold releaseCommitments at hs
+    split at hs
+    · rename_i cs hcs
+      cases hs
+      exact ⟨fun k => mem_releasePass hcs k, rfl, rfl, rfl⟩
+    · cases hs
+
+/-- The owner of the funds, holding no `cancel` permission in the market and not being the
+authority, is turned away — for its own funds too. -/
+theorem release_owner_without_perm_rejected (s : State) (m : Nat) (c : Text) (as : List String)
+    (hc : c.fold ≠ s.authority) (hn : (m, c.acc, Perm.cancel) ∉ s.grants) :
+    applyOp s (.release m c as) = (s, "err:perm") := by
+  have := endpoint_needs_its_perm s .MarketReleaseCommitments m c hc hn
+  simp [applyOp, this]
+
+example : applyOp { commits := [(1, "B"), (1, "C"), (2, "B")], grants := [(2, "B", .cancel), (1, "B", .update)] }
+      (.release 1 ⟨"B", .lower⟩ ["B"]) =
+      ({ commits := [(1, "B"), (1, "C"), (2, "B")], grants := [(2, "B", .cancel), (1, "B", .update)] }, "err:perm") ∧
+    (applyOp { commits := [(1, "B"), (1, "C"), (2, "B")], grants := [(1, "A", .cancel)] }
+      (.release 1 ⟨"A", .upper⟩ ["B"])).1.commits = [(1, "C"), (2, "B")] := by
+  constructor
+  · exact release_owner_without_perm_rejected _ 1 ⟨"B", .lower⟩ ["B"] (by decide) (by decide)
+  · decide
+
+private theorem setOrderExternalID_err {s : State} {m id : Nat} {x e : String}
+    (h : setOrderExternalID s m id x = .error e) : e = "notfound" ∨ e = "invalid" := by
+  unfold setOrderExternalID at h
+  split at h
+  · cases h; exact Or.inl rfl
+  · split at h
+    · cases h; exact Or.inr rfl
+    · split at h
+      · cases h; exact Or.inr rfl
+      · split at h <;> cases h; exact Or.inr rfl
+
+private theorem releaseCommitments_err {s : State} {m : Nat} {as : List String} {e : String}
+    (h : releaseCommitments s m as = .error e) : e = "invalid" := by
+  unfold releaseCommitments at h
+  split at h <;> cases h; rfl
+
+/-- The checker's clauses for the two requests accept the model's own answers (so a `fail:` on
+them is always a departure of the observed result from the guard). -/
+theorem item_checker_accepts_model (s : State) :
+    (∀ m id c x, verdict s (.setid m id c x) (applyOp s (.setid m id c x)).2 = "ok") ∧
+    (∀ m c as, verdict s (.release m c as) (applyOp s (.release m c as)).2 = "ok") := by
+  constructor
+  · intro m id c x
+    by_cases hok : (applyOp s (.setid m id c x)).2 = "ok"
+    · obtain ⟨o, ho, hm, ha⟩ := setid_only_with_perm_in_order_market s m id c x hok
+      have ha' : endpointAllowed s .MarketSetOrderExternalID m c = true := hm ▸ ha
+      simp only [verdict, hok, if_true, ho, ha, ha', Bool.not_true, Bool.false_eq_true, if_false]
+    · simp only [verdict, hok, if_false]
+      split
+      · rename_i h
+        exfalso
+        have h1 := h.1
+        simp only [applyOp, h.2, Bool.not_true, Bool.false_eq_true, if_false] at h1
+        cases hr : setOrderExternalID s m id x with
+        | ok s' => rw [hr] at h1; exact absurd (show ("ok" : String) = "err:perm" from h1) (by decide)
+        | error e =>
+          rw [hr] at h1
+          rcases setOrderExternalID_err hr with rfl | rfl
+          · exact absurd (show ("err:" ++ "notfound" : String) = "err:perm" from h1) (by decide)
+          · exact absurd (show ("err:" ++ "invalid" : String) = "err:perm" from h1) (by decide)
+      · rfl
+  · intro m c as
+    cases ha : endpointAllowed s .MarketReleaseCommitments m c with
+    | false => simp [verdict, applyOp, ha]
+    | true =>
+      simp only [verdict, applyOp, ha, Bool.not_true, Bool.false_eq_true, if_false, and_false, and_true]
+      cases hr : releaseCommitments s m as with
+      | ok s' => simp [opResult]
+      | error e => rw [releaseCommitments_err hr]; simp [opResult]
 
 /-! ## Facts regenerated from the Go source -/
 
